@@ -2,6 +2,7 @@ package rules
 
 import (
 	"fmt"
+	"go/types"
 	"regexp"
 	"strings"
 
@@ -119,7 +120,18 @@ func ruleSumOfRegisters(c *core.Ctx, rule string) {
 			bad = append(bad, fmt.Sprintf("%s: a figure computed from the registers is %s, not the positive plus the negative register of one name: reporters that show the plain sum and this one disagree on the number", where, t.Key()))
 		}
 		x.Hooks.Inline = func(callee *ssa.Function, depth int) bool {
-			return core.FnPkgPath(callee) == registerPkg || core.FnPkgPath(callee) == reporterPkg
+			if core.FnPkgPath(callee) == registerPkg || core.FnPkgPath(callee) == reporterPkg {
+				return true
+			}
+			// accessors of the pair of registers (AccValues.Sum()): where the sum is computed when it has a name
+			if recv := callee.Signature.Recv(); recv != nil && core.FnPkgPath(callee) == core.LibPath {
+				t := recv.Type()
+				if p, ok := t.Underlying().(*types.Pointer); ok {
+					t = p.Elem()
+				}
+				return strings.HasSuffix(t.String(), ".AccValues")
+			}
+			return false
 		}
 		x.Hooks.Store = func(x *absint.Exec, s *absint.State, in *ssa.Store, addr, val absint.Value) {
 			judge(val, c.P.Pos(in.Pos()))
